@@ -369,6 +369,13 @@ func (env *SpecEnv) objVal(obj types.Object) (Val, bool) {
 			return Val{S: strconv.FormatBool(constant.BoolVal(o.Val())), Sort: sBool, T: o.Type()}, true
 		}
 		_ = srt
+	case *types.Func:
+		// a package-level function named in a contract: its address constant (the value a function-typed variable holds)
+		if sp := env.eng.ssaPkgs[o.Pkg().Path()]; sp != nil && env.a != nil {
+			if f := sp.Func(o.Name()); f != nil {
+				return Val{S: env.a.fnAddr(f), Sort: sInt, T: o.Type()}, true
+			}
+		}
 	case *types.Var:
 		if sp := env.eng.ssaPkgs[o.Pkg().Path()]; sp != nil {
 			if gl, ok := sp.Members[o.Name()].(*ssa.Global); ok {
